@@ -874,3 +874,20 @@ async fn d21_wal_type_byte_flip_is_not_detected() {
 		}
 	}
 }
+
+// D22: the output table of a compaction is never fsynced before the manifest references it and the inputs are
+// unlinked.  Observed from outside with strace (repro/d22_strace.sh): this test only produces the history.
+#[tokio::test(flavor = "multi_thread")]
+async fn d22_compaction_output_history() {
+	let d = td();
+	let opts = mk_opts(d.path().to_path_buf(), |o| o.level_count = 3);
+	let tree = Tree::new(Arc::clone(&opts)).unwrap();
+	for i in 0..4 {
+		put(&tree, format!("k{i}").as_bytes(), b"acknowledged-and-flushed").await;
+		tree.flush().unwrap();
+	}
+	eprintln!("D22-MARK before compaction");
+	tree.compact(Arc::new(Strategy::default())).unwrap();
+	eprintln!("D22-MARK after compaction");
+	tree.close().await.unwrap();
+}
